@@ -94,6 +94,8 @@ class Engine(Interp):
                     return ('rawslot', v[1], pos(v[2]), v[3])
                 if h == 'rawbase' and len(v) == 4:
                     return ('rawbase', v[1], pos(v[2]), pos(v[3]))
+                if h == 'mu_copy' and len(v) == 3:
+                    return ('mu_copy', v[1], pos(v[2]))
                 if h == 'pair' and len(v) == 4:
                     return ('pair', v[1], pos(v[2]), v[3])
                 if h == 'slice' and len(v) == 4:
@@ -842,7 +844,7 @@ class Engine(Interp):
     def drop_value(self, st, v, eff, depth=0):
         """-> list of (kind, state)"""
         h = v[0]
-        if h in ('moved', 'int', 'bool', 'boolc', 'boolu', 'ref', 'slen', 'sliceit', 'closure', 'fn', 'rawslot', 'rawbase',
+        if h in ('moved', 'int', 'bool', 'boolc', 'boolu', 'ref', 'slen', 'sliceit', 'closure', 'fn', 'rawslot', 'rawbase', 'mu_copy',
                  'oarr', 'oslice', 'opqit', 'mu_uninit', 'uninit_arr'):
             if h == 'closure':
                 return self.drop_fields(st, list(v[2]), eff, depth)
